@@ -1,7 +1,7 @@
 """C07 - a returned shortest path is a real, optimal, geometrically continuous route"""
 import math
 from core import Stream, q, coq_list, zlit
-from props.C06 import gen_graph, exhaustive_small, arcs_of, bellman_ford, coq_edges, IMPORTS as G_IMPORTS, COMMON as G_COMMON
+from props.C06 import use_subnet, rand_pre, gen_graph, exhaustive_small, arcs_of, bellman_ford, coq_edges, IMPORTS as G_IMPORTS, COMMON as G_COMMON
 
 PROP = 'C07'
 THEOREM_FILE = 'Props/C07.v'
@@ -49,12 +49,13 @@ def generate(rng, n, tier):
             continue
         s = rng.choice(nodes)
         t = rng.choice([v for v in nodes if v != s])
-        cases.append({'edges': g, 'src': s, 'tgt': t, 'shared': rng.random() < 0.3, 'edit': rng.random() < 0.3, 'warm': rng.choice(nodes)})
+        cases.append({'edges': g, 'src': s, 'tgt': t, 'shared': rng.random() < 0.3, 'edit': rng.random() < 0.3, 'warm': rng.choice(nodes), 'pre': rand_pre(rng)})
     return cases
 
 
 def run_impl(case):
     net = build_net(case['edges'])
+    use_subnet(net, case)
     if case.get('edit'):            # a route returned earlier is the caller's: editing it in place must not move the network under later queries
         for a, b in ((case['warm'], case['tgt']), (case['src'], case['tgt']), (case['tgt'], case['src'])):
             r0 = net.shortest_path(a, b)
